@@ -78,4 +78,17 @@ with open("/verif/seeded/CROSS_MATRIX.md", "w") as f:
         for p in PROPS:
             if row[p]["verdict"] != "OK" and p != n.split("-")[0]:
                 f.write("* %s -> %s %s: %s\n" % (n, p, row[p]["verdict"], row[p]["detail"]))
+with open("/verif/seeded/DETECTION.md", "w") as f:
+    f.write("# Detection of the seeded changes by the check of their own property (from tools/cross_matrix.py, %s)\n\n" % time.strftime("%Y-%m-%d"))
+    f.write("| seed | own check | what it reported |\n|------|-----------|------------------|\n")
+    for n in sorted(results):
+        row = results[n]
+        if "error" in row:
+            f.write("| %s | error | %s |\n" % (n, row["error"]))
+            continue
+        own = n.split("-")[0]
+        v = row[own]
+        others = [p for p in PROPS if p != own and row[p]["verdict"] != "OK"]
+        f.write("| %s | %s | %s%s |\n" % (n, {"OK": "MISSED", "VIOLATION": "caught (failing input)", "NOINPUT": "caught (obligation/correspondence, no failing input)", "ERROR": "error"}[v["verdict"]],
+                                       v["detail"][:160].replace("|", "\\|"), ("; also reported by " + " ".join(others)) if others else ""))
 print("done")
